@@ -353,7 +353,7 @@ impl Property for Lex {
     fn budget(&self, tier: Tier) -> Budget {
         Budget {
             cases: tier.pick(400_000, 20_000_000),
-            tape_len: 160,
+            tape_len: 400,
         }
     }
     fn decode(&self, t: &mut Tape<'_>) -> LexCase {
